@@ -45,7 +45,7 @@ ASSUMPTIONS = [
 ]
 EXHAUSTIVE_SCOPE = {
   "quick": "all histories of length <= 3 over the 19-op alphabet (3 hosts on one 4-port switch: 12 unicast/broadcast/unknown "
-           "frames (host 0 sends IPv4/UDP with ECN bits set, host 1 IPv4/TCP with a DSCP, host 2 an opaque ethertype), LLDP-type and 01:80:c2:00:00:00 frame, 3 moves, advance 12 s / 32 s) x 4 configurations "
+           "frames (host 0 sends IPv4/UDP with ECN bits set, host 1 first fragments of IPv4/TCP with a DSCP, host 2 an opaque ethertype), LLDP-type and 01:80:c2:00:00:00 frame, 3 moves, advance 12 s / 32 s) x 4 configurations "
            "(transparent, pool, miss_send_len) in {(F,100,128),(T,100,128),(F,0,128),(F,1,14)}",
   "thorough": "as quick with length <= 4",
 }
@@ -453,9 +453,9 @@ def _alphabet():
     for j in range(3):
       if j != h:
         ops.append(dict({"o": "f", "h": h, "d": ["h", j], "v": 0, "n": 40},
-                        **[{"t": 1, "tos": 0x03}, {"t": 6, "tos": 0xb8}, {"t": 0}][h]))
+                        **[{"t": 1, "tos": 0x03}, {"t": 6, "tos": 0xb8, "frag": 1}, {"t": 0}][h]))
     ops.append({"o": "f", "h": h, "d": ["b"], "t": 2, "v": 0, "n": 18})
-    ops.append({"o": "f", "h": h, "d": ["u", 1], "t": 1, "v": 0, "n": 40})
+    ops.append({"o": "f", "h": h, "d": ["u", 1], "t": 1, "v": 0, "n": 40, "frag": h})
   ops.append({"o": "f", "h": 0, "d": ["h", 1], "t": 3, "v": 0, "n": 10})
   ops.append({"o": "f", "h": 0, "d": ["bf", 0], "t": 0, "v": 0, "n": 40})
   for h in range(3):
@@ -494,14 +494,14 @@ def _dest(nh, focused):
 
 def _frame(nh, focused):
   tos = st.sampled_from([0, 0, 0, 0] + TOS)
-  frag = st.sampled_from([0] * 10 + [1, 2])
+  frag = st.sampled_from([0] * 5 + [1, 2])
   if focused:
     # conversations: few header templates so that cached flows are hit again
     return st.fixed_dictionaries({
         "o": st.just("f"), "h": st.integers(0, nh - 1), "d": _dest(nh, True),
         "t": st.sampled_from([0, 0, 0, 0, 1, 1, 6, 3]), "v": st.sampled_from([0, 0, 0, 1]),
         "n": st.sampled_from([40, 40, 40, 300]), "tos": st.sampled_from([0, 0, 0, 0, 0, 0, 0x02, 0xb9]),
-        "frag": st.sampled_from([0] * 15 + [1])})
+        "frag": st.sampled_from([0] * 7 + [1, 2])})
   return st.fixed_dictionaries({
       "o": st.just("f"), "h": st.integers(0, nh - 1), "d": _dest(nh, False),
       "t": st.sampled_from([0, 0, 1, 1, 6, 7, 8, 2, 3, 4, 5]), "v": st.integers(0, 1),
